@@ -38,12 +38,20 @@ def reset():
     RUN.clear()
 
 
+AIO = {"on": False, "rng": None}   # asyncio mode: suspensions go through the simulated event loop
+
+
 class Susp:
-    """Awaitable that really suspends: its __await__ yields one token to whoever drives the coroutine."""
+    """Awaitable that really suspends: its __await__ yields one token to whoever drives the coroutine
+    (trampoline mode), or sleeps for a scheduler-chosen simulated delay (asyncio mode)."""
 
     __slots__ = ()
 
     def __await__(self):
+        if AIO["on"]:
+            import asyncio
+
+            return asyncio.sleep(AIO["rng"].choice((0, 0, 0, 0.001, 0.5, 60.0))).__await__()
         return iter((TOKEN,))
 
 
